@@ -62,8 +62,11 @@ func genResponse(e *Env) []byte {
 func scenC08(e *Env) func() {
 	p := &c08Plan{}
 	n := e.Range(4, 10)
+	// The property is stated for positive body limits only: maxBodySize 0 means
+	// "no limit", under which the readers allocate whatever Content-Length
+	// announces, so every limit drawn here is positive.
 	for i := 0; i < n; i++ {
-		c := c08Case{Target: Pick(e, "request", "request", "response", "response", "reqheader", "respheader", "values"), BufSz: Pick(e, 4096, 16, 64, 512, 4096), Chunk: Pick(e, 1<<20, 1, 2, 7, 100), Zero: e.Chance(20), ErrAt: -1, ErrKind: Pick(e, "eof", "unexpected-eof", "timeout", "custom"), MaxBody: Pick(e, 0, 1, 100, 4000, 1<<20)}
+		c := c08Case{Target: Pick(e, "request", "request", "response", "response", "reqheader", "respheader", "values"), BufSz: Pick(e, 4096, 16, 64, 512, 4096), Chunk: Pick(e, 1<<20, 1, 2, 7, 100), Zero: e.Chance(20), ErrAt: -1, ErrKind: Pick(e, "eof", "unexpected-eof", "timeout", "custom"), MaxBody: Pick(e, 1<<24, 1, 100, 4000, 1<<20)}
 		var in []byte
 		switch c.Target {
 		case "request", "reqheader", "values":
@@ -179,7 +182,7 @@ func c08Run(e *Env, p *c08Plan) {
 			switch c.Target {
 			case "request":
 				var req fasthttp.Request
-				perr = req.ReadLimitBody(br, c.MaxBody)
+				perr = c08ReadRequest(e, &req, br, c.MaxBody)
 				if perr == nil {
 					c08Values(&req)
 				}
@@ -202,7 +205,7 @@ func c08Run(e *Env, p *c08Plan) {
 				ck.ParseBytes(in)
 				fasthttp.ParseByteRange(in, len(in))
 				var req fasthttp.Request
-				perr = req.ReadLimitBody(br, c.MaxBody)
+				perr = c08ReadRequest(e, &req, br, c.MaxBody)
 				if perr == nil {
 					c08Values(&req)
 				}
@@ -236,10 +239,23 @@ func c08Run(e *Env, p *c08Plan) {
 				ref := refParseOne(in, 0)
 				if ref.Kind == refOK {
 					e.Ob(1)
+					// The property bounds consumption from above only: the bytes left
+					// in the reader must be a suffix of the input that still contains
+					// everything after the reference end of the message. Stopping short
+					// of that end is not an over-read (message boundaries are C01's).
 					want := in[ref.End:]
-					if !bytes.Equal(rest, want) {
+					if !bytes.HasSuffix(in, rest) {
+						e.Violation("over-read/request", "%s: the %d bytes left after the parsed message are not a suffix of the input (remaining %q)", tag, len(rest), clip(string(rest), 80))
+						return
+					}
+					if len(rest) < len(want) {
 						e.Violation("over-read/request", "%s: after the parsed message %d bytes remain, RFC 9112 framing leaves %d (the parser consumed %d bytes too many)", tag, len(rest), len(want), len(want)-len(rest))
 						return
+					}
+					if len(rest) > len(want) {
+						e.Probe("stopped-short")
+					} else {
+						e.Probe("exact-end")
 					}
 				}
 			} else if !bytes.HasSuffix(rest, []byte(c08Sentinel)) {
@@ -249,6 +265,19 @@ func c08Run(e *Env, p *c08Plan) {
 		}
 	}
 	_ = time.Second
+}
+
+// c08ReadRequest reads one request the way the API documents it: when
+// ReadLimitBody returns with MayContinue set it has deliberately stopped after
+// the head ("Expect: 100-continue"), and the caller reads the body with
+// ContinueReadBody.
+func c08ReadRequest(e *Env, req *fasthttp.Request, br *bufio.Reader, maxBody int) error {
+	err := req.ReadLimitBody(br, maxBody)
+	if err == nil && req.MayContinue() {
+		e.Probe("expect-continue")
+		err = req.ContinueReadBody(br, maxBody)
+	}
+	return err
 }
 
 // c08Values runs the value parsers on an accepted request.
